@@ -216,6 +216,22 @@ def explore(run, tier):
         c = c01.mk(cfg, 'cp500', gi % 2, m, {})
         c['unconfigured'] = f'DE{b}'
         cases.append(c)
+    # keys that LOOK like data elements but name none of 2..128 (DE1 — the bitmap position, configured in the packaged
+    # table —, DE0, DE129, DE999): not elements of the message, nothing is emitted for them and no bit is set
+    for stray in ({'DE1': '12345678'}, {'DE0': 'x'}, {'DE129': 'abc'}, {'DE999': 'abc', 'DE1': 'ABCDEFGH'}, {'DE1': 0}):
+        for ci, codec in enumerate(codecs3):
+            m = {'MTI': '1240', 'DE2': '5' * 16, 'DE3': '123456', **stray}
+            cases.append(c01.mk('pkg', codec, ci % 2, m, {}))
+            cases.append(c01.mk('pkg', codec, ci % 2, {'MTI': '1240', **stray}, {}))
+    # whole numbers given as FLOATS for integer elements (what a spreadsheet or JSON reader hands over): the value counts
+    for b in bits:
+        fc = pkg[str(b)]
+        if fc.get('field_python_type') in ('int', 'long') and fc['field_type'] == 'FIXED':
+            for ci, val in enumerate((9999.0, 0.0, 1.0, 120000.0, float(10 ** min(fc['field_length'] - 1, 15)))):
+                m = {'MTI': '1240', 'DE2': '5' * 16, f'DE{b}': val}
+                c = c01.mk('pkg', codecs3[(b + ci) % 3], ci % 2, m, {})
+                c['msg_model'] = iu.dict_wire({**m, f'DE{b}': int(val)})
+                cases.append(c)
     # EMPTY values — '' for text elements, b'' for the binary (ICC) element: an empty value is an absent element (its bit
     # stays off and nothing is emitted), alone and next to present elements
     for b in bits:
